@@ -259,6 +259,26 @@ def unknown_name_stream(ctx, n):
                 ctx.violation(case, f"rule mentioning the absent module {bad!r} produced the verdict {io[0]}", {"kind": "unknown_name"})
             if not rules.same_verdict(io, mo):
                 ctx.disagreement(dict(case, model=mo[0]), f"unknown-name rule: implementation {io[0]}, model {mo[0]}")
+        # the same batch as a LAYER (subject, then object) of a layer rule: 14 shapes incl. the two any-layer aliases
+        if limit is None and len(present) >= 3:
+            from harness import layers
+            from harness.props import c05
+            rest = sorted(x for x in present if x != good and x not in batch and x != "r")
+            for subj_is_bad in (True, False):
+                arch_calls = [("LB", "list", list(batch)), ("LG", "list", [good])]
+                cc = dict(arch_calls=arch_calls, subj="LB" if subj_is_bad else "LG", objs=["LG" if subj_is_bad else "LB"], obj_as_str=False)
+                hs, metas = c05.histories(cc)
+                res, _pair = layers.eval_layer_histories(nodes, edges, hs)
+                for meta, (io, mo) in zip(metas, res):
+                    ctx.evaluations += 1
+                    ctx.stat("unknown_name_in_layer_" + io[0])
+                    case = dict(nodes=nodes, edges=edges, layers=[[a, b, v] for a, b, v in arch_calls], rule=dict(meta, subject=cc["subj"], objects=cc["objs"]), impl=io[0])
+                    # the any-layer aliases take no object: a rule about LG does not mention the layer LB at all
+                    mentions = subj_is_bad or not meta["anything"]
+                    if mentions and io[0] in ("PASS", "FAIL"):
+                        ctx.violation(case, f"layer rule over a layer that lists the absent module {bad!r} produced the verdict {io[0]}", {"kind": "unknown_name_layer"})
+                    if not layers.same_layer_outcome(io, mo, lines=False):
+                        ctx.disagreement(dict(case, model=mo[0]), f"unknown-name layer rule: implementation {io[0]}, model {mo[0]}")
         ctx.mark_nontrivial(("unknown", bad, tuple(nodes)))
 
 
